@@ -34,6 +34,8 @@ PRUNE_BRANCHES = False
 TUPLE_AS_SEQUENCE = True
 # Residue3D.is_nucleotide (tertiary.py, cached_property) reads only the frozen record's own fields and class constants:
 # modelled as an uninterpreted function of the record value (ASSUMED pure; only used by the nucleic_acid_only filter)
+# dicts that are modified in a loop keep the representation invariant "the key list holds exactly the keys, each once"
+DICT_ORDER_INVARIANT = True
 PURE_ATTRS = {"Residue3D.is_nucleotide": "bool"}
 
 
@@ -312,6 +314,9 @@ def _ext_float_ok(e, args, kw, node, st):
     return e.ufun("py_float_ok", _z3.StringSort(), _z3.BoolSort())(to_z3(args[0]))
 
 
+# wfl(l): "line l of the file being parsed is well-formed" - an abbreviation (definitional lemma wfl_definition) that keeps the
+# string-heavy well-formedness condition out of the solver's way until the proof asks for one line's instance
+UFUNS = {"wfl": (["int"], "bool")}
 EXTERNALS = {"str.strip": _ext_strip, "spec.int_ok": _ext_int_ok, "spec.float_ok": _ext_float_ok}
 SPEC_EXTERNALS = {"strip": "str.strip", "int_ok": "spec.int_ok", "float_ok": "spec.float_ok"}
 
@@ -353,19 +358,43 @@ def decoded(a, l, m):
 
 
 @spec
+def wf_line(l):
+    """a well-formed PDB line: the record name occupies columns 1-6; an ATOM/HETATM line reaches column 27 (a shorter one
+    raises IndexError at line[21] / line[26]; the slices never raise) and its numeric columns parse; a MODEL serial parses;
+    a MODRES line reaches column 24 and its sequence number parses"""
+    return (implies(l.startswith("ATOM"), col(l, 1, 6) == "ATOM  ")
+            and implies(l.startswith("MODEL"), col(l, 1, 6) == "MODEL ")
+            and implies(is_model_line(l), int_ok(strip(col(l, 11, 14))))
+            and implies(is_atom_line(l),
+                        len(l) >= 27 and int_ok(strip(col(l, 23, 26)))
+                        and float_ok(strip(col(l, 31, 38))) and float_ok(strip(col(l, 39, 46)))
+                        and float_ok(strip(col(l, 47, 54))) and float_ok(strip(col(l, 55, 60))))
+            and implies(l.startswith("MODRES"), len(l) >= 24 and int_ok(strip(col(l, 19, 22)))))
+
+
+@spec
 def wf_pdb(L):
-    """well-formed PDB text: record names occupy columns 1-6; ATOM/HETATM lines reach column 27 (shorter lines raise
-    IndexError at line[21] / line[26]; the slices never raise) and their numeric columns parse; MODEL serials parse;
-    MODRES lines reach column 24 and their sequence number parses"""
-    return forall(lambda l: implies(0 <= l and l < len(L),
-                                    implies(L[l].startswith("ATOM"), col(L[l], 1, 6) == "ATOM  ")
-                                    and implies(L[l].startswith("MODEL"), col(L[l], 1, 6) == "MODEL ")
-                                    and implies(is_model_line(L[l]), int_ok(strip(col(L[l], 11, 14))))
-                                    and implies(is_atom_line(L[l]),
-                                                len(L[l]) >= 27 and int_ok(strip(col(L[l], 23, 26)))
-                                                and float_ok(strip(col(L[l], 31, 38))) and float_ok(strip(col(L[l], 39, 46)))
-                                                and float_ok(strip(col(L[l], 47, 54))) and float_ok(strip(col(L[l], 55, 60))))
-                                    and implies(L[l].startswith("MODRES"), len(L[l]) >= 24 and int_ok(strip(col(L[l], 19, 22))))))
+    """every line is well-formed; wfl(l) abbreviates wf_line(L[l]) (definition wfl_definition, unfolded one line at a time)"""
+    return forall(lambda l: implies(0 <= l and l < len(L), wfl(l)))
+
+
+LEMMAS["wfl_definition"] = {"kind": "definition", "params": ["L", "l"], "ensures": ["wfl(l) == wf_line(L[l])"]}
+LEMMAS["record_names"] = {
+    # with record names in columns 1-6 the code's prefix tests decide the record type
+    "kind": "smt", "params": ["l"], "shapes": ["str"],
+    "requires": ["implies(l.startswith('ATOM'), col(l, 1, 6) == 'ATOM  ')", "implies(l.startswith('MODEL'), col(l, 1, 6) == 'MODEL ')"],
+    "ensures": ["is_model_line(l) == l.startswith('MODEL')",
+                "is_atom_line(l) == (not l.startswith('MODEL') and (l.startswith('ATOM') or l.startswith('HETATM')))"]}
+
+
+LEMMAS["decoded_snoc"] = {
+    # appending one decoded atom (with its line and MODEL-record indices) keeps "every atom is the decode of its line"
+    "kind": "smt", "params": ["A", "SRC", "MS", "L", "a", "s", "m"],
+    "shapes": ["list[rec[Atom]]", "list[int]", "list[int]", "list[str]", "rec[Atom]", "int", "int"],
+    "requires": ["len(A) >= 0 and len(SRC) == len(A) and len(MS) == len(A)",
+                 "forall(lambda j: implies(0 <= j and j < len(SRC), decoded(A[j], L[SRC[j]], model_of(L, MS[j]))))",
+                 "decoded(a, L[s], model_of(L, m))"],
+    "ensures": ["forall(lambda j: implies(0 <= j and j < len(SRC) + 1, decoded(snoc(A, a)[j], L[snoc(SRC, s)[j]], model_of(L, snoc(MS, m)[j]))))"]}
 
 
 class io_seek_c:
@@ -381,9 +410,134 @@ class io_readlines_c:
     params = {"self": "IO"}
     requires = []
     returns = "list[str]"
-    ensures = ["len(result) == len(self.lines)", "forall(lambda q: implies(0 <= q and q < len(result), result[q] == self.lines[q]))"]
+    returns_value = "self.lines"
+    ensures = []
     raises = []
     modifies = []
+
+
+# ------------------------------------------------------------------------------------------------ filter_clashing_atoms
+CLASSES["KDTree"] = {"kind": "object", "fields": {"pts": "list[tuple[real,real,real]]"}}
+
+
+def _ext_np_array(e, args, kw, node, st):
+    """numpy.array(list of (x, y, z) tuples): the n x 3 coordinate array, modelled as the list of points itself"""
+    from pyvc.values import Unsupported, VList
+    if not isinstance(args[0], VList):
+        raise Unsupported("numpy.array of this value")
+    return args[0]
+
+
+def _ext_kdtree(e, args, kw, node, st):
+    """scipy.spatial.KDTree(points): an object holding the points (its only observable use here is query_pairs)"""
+    return e.construct("KDTree", [args[0]], {}, node, st)
+
+
+EXTERNALS.update({"numpy.array": _ext_np_array, "KDTree": _ext_kdtree})
+
+
+@spec
+def dist2(p, q):
+    return (p[0] - q[0]) * (p[0] - q[0]) + (p[1] - q[1]) * (p[1] - q[1]) + (p[2] - q[2]) * (p[2] - q[2])
+
+
+@spec
+def adist2(a, b):
+    """squared distance of two atoms"""
+    return (a.x - b.x) * (a.x - b.x) + (a.y - b.y) * (a.y - b.y) + (a.z - b.z) * (a.z - b.z)
+
+
+class kd_query_pairs_c:
+    """ASSUMED contract of scipy.spatial.KDTree.query_pairs(r): exactly the index pairs (a < b) of points at distance <= r
+    (real arithmetic: distance <= r  iff  squared distance <= r*r for r >= 0)"""
+    params = {"self": "KDTree", "r": "real"}
+    requires = []
+    returns = "set[tuple[int,int]]"
+    ensures = ["forall(lambda a, b: ((a, b) in result) == (0 <= a and a < b and b < len(self.pts) and dist2(self.pts[a], self.pts[b]) <= r * r))"]
+    raises = []
+    modifies = []
+
+
+@spec
+def akey(a):
+    """the duplicate key of filter_clashing_atoms: (label, auth, name)"""
+    return (a.label, a.auth, a.name)
+
+
+@spec
+def occ0(a):
+    """`occupancy or 0.0`"""
+    return ite(a.occupancy is None, 0.0, some(a.occupancy))
+
+
+@spec
+def compared(UL, pr):
+    """the pair is compared by the clash filter: both occupancies are known"""
+    return UL[pr[0]].occupancy is not None and UL[pr[1]].occupancy is not None
+
+
+@spec
+def loser(UL, pr):
+    """the index discarded for a compared pair (a, b), a < b: b if a's occupancy is strictly higher, else a"""
+    return ite(some(UL[pr[0]].occupancy) > some(UL[pr[1]].occupancy), pr[1], pr[0])
+
+
+KEY = "tuple[opt[rec[ResidueLabel]],opt[rec[ResidueAuth]],str]"
+
+
+@spec
+def kept_copies(UL, atoms, RK):
+    """what the duplicate filter establishes: UL holds input atoms (RK: their positions), one per (label, auth, name), and every
+    input atom has its key represented by a copy of at least its occupancy"""
+    return (len(UL) >= 0
+            and forall(lambda p: implies(0 <= p and p < len(UL), 0 <= RK[akey(UL[p])] and RK[akey(UL[p])] < len(atoms) and UL[p] == atoms[RK[akey(UL[p])]]))
+            and forall(lambda p, q: implies(0 <= p and p < q and q < len(UL), akey(UL[p]) != akey(UL[q])))
+            and forall(lambda t: implies(0 <= t and t < len(atoms), exists(lambda p: 0 <= p and p < len(UL) and akey(UL[p]) == akey(atoms[t]) and occ0(atoms[t]) <= occ0(UL[p])))))
+
+
+class filter_single_c:
+    """the single-model core (duplicate filter + clash filter).  Ghosts: RK[k] = position in `atoms` of the copy currently kept
+    for the key k = (label, auth, name); UL = the kept copies in first-occurrence order of their keys (unique_atoms_list);
+    E = the (arbitrary, set-iteration) order in which the surviving positions of UL are emitted"""
+    params = {"atoms": "list[rec[Atom]]", "clash_distance": "real"}
+    defaults = {"clash_distance": _Fraction(1, 2)}
+    requires = ["forall(lambda t: implies(0 <= t and t < len(atoms), atoms[t].model == atoms[0].model))", "clash_distance >= 0"]
+    returns = "list[rec[Atom]]"
+    ensures = [
+        "len(E) == len(result) and forall(lambda r: implies(0 <= r and r < len(result), 0 <= E[r] and E[r] < len(UL) and result[r] == UL[E[r]]))",
+        "forall(lambda p: implies(0 <= p and p < len(UL), 0 <= RK[akey(UL[p])] and RK[akey(UL[p])] < len(atoms) and UL[p] == atoms[RK[akey(UL[p])]]))",
+        "forall(lambda r, r2: implies(0 <= r and r < r2 and r2 < len(result), akey(result[r]) != akey(result[r2])))",
+        "forall(lambda r, t: implies(0 <= r and r < len(result) and 0 <= t and t < len(atoms) and akey(atoms[t]) == akey(result[r]), occ0(atoms[t]) <= occ0(result[r])))",
+        "forall(lambda r, r2: implies(0 <= r and r < r2 and r2 < len(result) and result[r].occupancy is not None and result[r2].occupancy is not None, adist2(result[r], result[r2]) > clash_distance * clash_distance))",
+    ]
+    ensures_labels = {0: "result-atoms-are-kept-copies-each-once", 1: "kept-copies-are-input-atoms", 2: "one-atom-per-residue-and-name",
+                      3: "the-highest-occupancy-copy", 4: "of-two-atoms-within-the-clash-distance-only-one"}
+    raises = []
+    modifies = []
+    locals = {"unique_atoms": "dict[" + KEY + ",rec[Atom]]", "result": "list[rec[Atom]]"}
+    ghost_entry = ["let RK = empty('dict[" + KEY + ",int]')", "let UL = empty('list[rec[Atom]]')"]
+    loops = {
+        0: {"inv": ["len(models) <= 1"]},  # the multi-model branch is not entered under this variant's precondition
+        1: {"index": "n1", "inv": [
+            "forall(lambda t: implies(0 <= t and t < n1, akey(atoms[t]) in unique_atoms and occ0(atoms[t]) <= occ0(unique_atoms[akey(atoms[t])])))",
+            "forall(lambda p: implies(0 <= p and p < len(list(unique_atoms.keys())), 0 <= RK[list(unique_atoms.keys())[p]] and RK[list(unique_atoms.keys())[p]] < n1 and unique_atoms[list(unique_atoms.keys())[p]] == atoms[RK[list(unique_atoms.keys())[p]]] and akey(atoms[RK[list(unique_atoms.keys())[p]]]) == list(unique_atoms.keys())[p]))",
+        ]},
+        2: {"index": "n2", "seq": "PS", "inv": [
+            "forall(lambda u: implies(u in atoms_to_keep, 0 <= u and u < len(unique_atoms_list)))",
+            "forall(lambda m: implies(0 <= m and m < n2 and compared(unique_atoms_list, PS[m]), loser(unique_atoms_list, PS[m]) not in atoms_to_keep))",
+        ]},
+    }
+    ghost = [
+        {"when": "before", "at": "if len(models) > 1", "label": "one-model", "do": ["assert len(models) <= 1"]},
+        {"when": "after", "at": "unique_atoms[key] = atom", "loop": 1, "label": "copy-replaced", "do": ["let RK = dstore(RK, key, n1)"]},
+        {"when": "after", "at": "unique_atoms_list = list(unique_atoms.values())", "label": "kept-copies",
+         "do": ["let UL = unique_atoms_list",
+                "assert len(UL) >= 0 and forall(lambda p: implies(0 <= p and p < len(UL), 0 <= RK[akey(UL[p])] and RK[akey(UL[p])] < len(atoms) and UL[p] == atoms[RK[akey(UL[p])]]))",
+                "assert forall(lambda p, q: implies(0 <= p and p < q and q < len(UL), akey(UL[p]) != akey(UL[q])))",
+                "assert forall(lambda t: implies(0 <= t and t < len(atoms), exists(lambda p: 0 <= p and p < len(UL) and akey(UL[p]) == akey(atoms[t]) and occ0(atoms[t]) <= occ0(UL[p]))))",
+                "cut kept_copies(UL, atoms, RK)"]},
+    ]
+    ghost_exit = ["let E = last_enum()"]
 
 
 class filter_clashing_atoms_c:
@@ -434,8 +588,13 @@ class parse_pdb_decode_c:
         "forall(lambda l: implies(0 <= l and l < i and is_atom_line(pdb.lines[l]), 0 <= POS[l] and POS[l] < len(SRC) and SRC[POS[l]] == l))",
     ]}}
     ghost = [
+        {"when": "before", "at": "if line.startswith('MODEL')", "loop": 0, "label": "record-type",
+         "do": ["use wfl_definition(pdb.lines, i)", "use record_names(line)"]},
         {"when": "after", "at": "model = int(line[10:14]", "loop": 0, "label": "model-record", "do": ["let LM = i"]},
-        {"when": "after", "at": "atoms_to_process.append(", "loop": 0, "label": "atom-record", "do": ["let SRC = snoc(SRC, i)", "let MS = snoc(MS, LM)"]},
+        {"when": "after", "at": "atoms_to_process.append(", "loop": 0, "label": "atom-record",
+         "do": ["use decoded_snoc(A0, SRC, MS, pdb.lines, atoms_to_process[len(atoms_to_process) - 1], i, LM)",
+                "let SRC = snoc(SRC, i)", "let MS = snoc(MS, LM)"]},
+        {"when": "before", "at": "atoms_to_process.append(", "loop": 0, "label": "remember", "do": ["let A0 = atoms_to_process"]},
         {"when": "after", "at": "if line.startswith('MODEL')", "loop": 0, "label": "line-done", "do": ["let POS = snoc(POS, len(atoms_to_process) - 1)"]},
         {"when": "before", "at": "atoms = filter_clashing_atoms(", "label": "decoded", "do": ["let D = atoms_to_process"]},
     ]
@@ -445,6 +604,8 @@ CONTRACTS = {
     "IO.seek": io_seek_c,
     "IO.readlines": io_readlines_c,
     "filter_clashing_atoms": filter_clashing_atoms_c,
+    "filter_clashing_atoms@single": filter_single_c,
+    "KDTree.query_pairs": kd_query_pairs_c,
     "parse_pdb@decode": parse_pdb_decode_c,
     "is_cif": is_cif_c,
     "parse_cif": parse_cif_c,
